@@ -560,6 +560,18 @@ def s_depth(levels=(20, 63)):
             for _ in range(lv // 2):
                 inner = {k: [[inner], True if k != "none" else False]}
             out.append(app(inner, None))
+    # deeply nested DATA (126 levels of arrays / objects): string forms, comparisons, membership, lookups, truthiness
+    deepa = 1; deepo = 1
+    for _ in range(126):
+        deepa = [deepa]; deepo = {"k": deepo}
+    for dd in (deepa, deepo, [deepa, deepo]):
+        for rule in ({"cat": [{"var": ""}]}, {"==": [{"var": ""}, 1]}, {"==": [{"var": ""}, "1"]}, {"<": [{"var": ""}, 2]}, {"<=": [{"var": ""}, {"var": ""}]}, {"in": [{"var": ""}, [{"var": ""}]]},
+                     {"merge": [{"var": ""}, {"var": ""}]}, {"var": ""}, {"!!": [{"var": ""}]}, {"max": [{"var": ""}]}, {"+": [{"var": ""}]}, {"===": [{"var": ""}, {"var": ""}]},
+                     {"var": ".".join(["0"] * 126)}, {"var": ".".join(["k"] * 126)}, {"missing": [".".join(["0"] * 127)]}, {"map": [[{"var": ""}], {"var": ""}]}, {"log": {"var": ""}},
+                     {"all": [{"var": ""}, {"var": ""}]}, {"reduce": [{"var": ""}, {"var": "current"}, 0]}, {"substr": [{"cat": [{"var": ""}]}, -1]}):
+            out.append(app(rule, dd))
+        out.append("to_string " + enc(dd)); out.append("to_number " + enc(dd)); out.append("parse_float " + enc(dd))
+        out.append("abstract_eq %s %s" % (enc(dd), enc(dd))); out.append("abstract_lte %s %s" % (enc(dd), enc(dd)))
     return out
 
 
